@@ -538,6 +538,122 @@ func TestC07(t *testing.T) {
 			}
 		}
 	}
+	// counter fields next to their carries: a genuine marshaled state whose byte counter is moved to 2^W - k*bs
+	// (aligned, as after that many bytes), then written across the carry in several chunkings; the digest must
+	// equal the reference continued from that counter, and Marshal->Unmarshal must be transparent on both sides
+	// of the carry (a high counter word != 0 is a legitimate state).  BLAKE2b's carry at 2^64 is crossed on the
+	// generic implementation only (the assembly's signed counter compare for counters >= 2^63 is a recorded
+	// observation outside the properties); below 2^63 every default path is used.
+	{
+		nCarry := 0
+		for _, k := range []c07Kind{c07B2s(), c07B2b(64), c07B2b(20)} {
+			word := k.ctrLen / 2 // bytes per counter word
+			for _, fill := range []int{1, k.bs - 1, k.bs, 2*k.bs + 7} {
+				for kk := 1; kk <= 3; kk++ {
+					for _, hi := range []uint64{0, 1, 7} {
+						for ci, crossing := range []bool{true, false} {
+							item++
+							if !ev.Mine(item) {
+								continue
+							}
+							base := c07Base(k, fill)
+							// low word: 2^W - kk*bs when crossing; a large aligned value below the carry (and below 2^63) otherwise
+							var lo uint64
+							if word == 4 {
+								lo = 1<<32 - uint64(kk*k.bs)
+								if !crossing {
+									lo = 1<<31 + uint64(kk*k.bs)
+								}
+							} else {
+								lo = -uint64(kk * k.bs)
+								if !crossing {
+									lo = 1<<62 + uint64(kk*k.bs)
+								}
+							}
+							st := append([]byte{}, base...)
+							for i := 0; i < word; i++ {
+								st[k.ctrAt+i] = byte(lo >> (8 * (word - 1 - i)))
+								st[k.ctrAt+word+i] = byte(hi >> (8 * (word - 1 - i)))
+							}
+							// chaining value and buffered bytes of the genuine state
+							buffered := append([]byte{}, st[k.sizeAt+1:k.sizeAt+1+int(st[k.offAt])]...)
+							restore := func() {}
+							if k.family == "blake2b" && crossing {
+								restore, _ = blake2b.VerifSelect("generic")
+							}
+							more := seqBytes(3*k.bs + 5 + fill)
+							var failure string
+							for _, wl := range []int{0, 1, k.bs, 2 * k.bs, 3*k.bs + 5} {
+								for chunking := 0; chunking < 3 && failure == ""; chunking++ {
+									var want []byte
+									data := append(append([]byte{}, buffered...), more[:wl]...)
+									if word == 4 {
+										var h [8]uint32
+										for i := range h {
+											h[i] = uint32(st[3+4*i])<<24 | uint32(st[4+4*i])<<16 | uint32(st[5+4*i])<<8 | uint32(st[6+4*i])
+										}
+										want = ref.Blake2sResume(h, hi<<32|lo, data, k.size)
+									} else {
+										var h [8]uint64
+										for i := range h {
+											for j := 0; j < 8; j++ {
+												h[i] = h[i]<<8 | uint64(st[3+8*i+j])
+											}
+										}
+										want = ref.Blake2bResume(h, lo, hi, data, k.size)
+									}
+									h1 := k.fresh()
+									if err, pmsg := c07Unmarshal(h1, st); err != nil || pmsg != "" {
+										failure = fmt.Sprintf("UnmarshalBinary rejects a state whose counter is (low %#x, high %d): err=%v panic=%q", lo, hi, err, pmsg)
+										break
+									}
+									switch chunking {
+									case 0:
+										h1.Write(more[:wl])
+									case 1:
+										cut := min(wl, k.bs-len(buffered)%k.bs)
+										h1.Write(more[:cut])
+										h1.Write(more[cut:wl])
+									default:
+										for o := 0; o < wl; o += 37 {
+											h1.Write(more[o:min(wl, o+37)])
+										}
+									}
+									s1, err := c07Marshal(h1)
+									if err != nil {
+										failure = fmt.Sprintf("MarshalBinary after writing %d bytes from counter (low %#x, high %d) failed: %v", wl, lo, hi, err)
+										break
+									}
+									h2 := k.fresh()
+									if err, pmsg := c07Unmarshal(h2, s1); err != nil || pmsg != "" {
+										failure = fmt.Sprintf("Marshal -> Unmarshal is not transparent after writing %d bytes from counter (low %#x, high %d): UnmarshalBinary(%x) err=%v panic=%q", wl, lo, hi, s1, err, pmsg)
+										break
+									}
+									if g1, g2 := h1.Sum(nil), h2.Sum(nil); !bytes.Equal(g1, want) || !bytes.Equal(g2, want) {
+										failure = fmt.Sprintf("counter (low %#x, high %d), %d buffered + %d written bytes (chunking %d): original %x restored %x, reference continued from that counter %x", lo, hi, len(buffered), wl, chunking, g1, g2, want)
+										break
+									}
+								}
+								if failure != "" {
+									break
+								}
+							}
+							restore()
+							if failure != "" {
+								what := fmt.Sprintf("%s (state after %d bytes): %s", k.name, fill, failure)
+								c.Violation(what, "")
+								t.Fatalf("VF-VIOLATION: property=C07 %s", what)
+							}
+							c.Case(true, fmt.Sprintf("carry|%s|%d|%d|%d|%d", k.name, fill, kk, hi, ci), "counter-carry:"+k.family+map[bool]string{true: ":crossing", false: ":high-word-only"}[crossing], fmt.Sprintf("counter-high-word=%d", hi))
+							nCarry++
+						}
+					}
+				}
+			}
+		}
+		c.Exhaustive("counter next to its carry: {BLAKE2s, BLAKE2b-512, BLAKE2b-160} x 4 buffer fills x low word 2^W-k*bs (k=1..3) or large aligned x high word {0,1,7} x 5 write lengths x 3 chunkings, Marshal->Unmarshal on the far side", nCarry)
+	}
+
 	// concurrency part: marshal / unmarshal / continue on separate objects from several goroutines at once
 	{
 		kindsAll := append([]c07Kind{c07B2b(64), c07B2b(20), c07B2s(), c07Keccak(256), c07Keccak(512)}, c07StdKinds()...)
